@@ -609,7 +609,9 @@ class StrEval:
             return Hole(node, fc, spec=spec)
         if isinstance(v, tuple) and v and v[0] == "opaque":
             numeric = bool(spec) and spec[-1:] in "dxXofeEgGn"
-            return Hole(v[1] if v[1] is not None else node, fc, spec=spec, numeric=numeric)
+            # an argument bound at a call site keeps the context it was written in
+            hfc = v[2] if len(v) > 2 and v[2] is not None else fc
+            return Hole(v[1] if v[1] is not None else node, hfc, spec=spec, numeric=numeric)
         if isinstance(v, tuple) and v and v[0] == "loopvar":
             numeric = bool(spec) and spec[-1:] in "dxXofeEgGn"
             return Hole(node, fc, spec=spec, numeric=numeric)
